@@ -839,6 +839,31 @@ func (cx *Ctx) checkDestinationContent(r *Report, hk, short, fnKey string) {
 			if tp := fx.T(fx.path(a)); strings.HasPrefix(tp, "<samlp.") && strings.HasSuffix(tp, ">.Destination") && ai < len(g.Params) {
 				destParam[g.Params[ai]] = true
 				fns = append(fns, g)
+				// ... also inside the function literals of the helper that capture the parameter
+				// (`isDestination := func(e md.EndpointType) bool { return e.Location == destination }`)
+				for _, an := range g.AnonFuncs {
+					fns = append(fns, an)
+					for _, fv := range an.FreeVars {
+						bound := false
+						switch b := fx.bindings[fv].(type) {
+						case *ssa.Parameter:
+							bound = b == g.Params[ai]
+						case *ssa.Alloc:
+							if st := fx.storesToCell(b); len(st) == 1 && st[0] == ssa.Value(g.Params[ai]) {
+								bound = true
+							}
+						}
+						if !bound {
+							continue
+						}
+						destParam[fv] = true
+						for _, ref := range *fv.Referrers() {
+							if ld, isLd := ref.(*ssa.UnOp); isLd && ld.Op == token.MUL {
+								destParam[ld] = true
+							}
+						}
+					}
+				}
 			}
 		}
 	}
